@@ -18,6 +18,17 @@ CLAIMED = {
         note="Decides the per-call contract exactly up to the numeric value of loader results (byte order: C10; half "
              "floats: C15). Client callbacks are outside the program.",
         design="§4 C08"),
+    "C10": dict(
+        technique="table extraction by path enumeration of every public encoder (interval partition of the value domain, stored-byte terms) and of the integer loaders, compared with the RFC 8949 head reference and with T-dispatch",
+        text="For every public cbor_encode_* all paths are enumerated with the primitives inlined; each path gives a value "
+             "interval, the buffer_size guard and the stored bytes as terms. These are compared, for all 2^64 values at "
+             "once, with the RFC head encoding (offset, additional info, big-endian byte map, shortest-form classes, "
+             "canonical NaN), and each emitted initial byte is linked to the decoder arm that must invert it (same width, "
+             "mirror-image loader byte map, matching callback kind, consumed = written).",
+        note="Exact for integer heads; for floats only the framing, NaN constants and the single/double bit-identity are "
+             "decided (half-precision arithmetic is declined under C15). If an encoder or loader is rewritten as a loop "
+             "or memcpy+bswap the extractor reports analysis-broken rather than pass.",
+        design="§4 C10"),
     "C13": dict(
         technique="whole-library who-may-call + effect summaries (allocator call graph), block-provenance rule against the extracted constructor table",
         text="Decided as a whole by static who-may-call/effect analysis over all 20 units: external-symbol inventory "
